@@ -280,3 +280,46 @@ Proof.
   destruct (merge_rec merge (S (length l)) l); reflexivity.
 Qed.
 End EquivarianceInv.
+
+(** ** M2, additive form: a measure that is additive over merges (up to permutation) is
+    preserved by the whole loop: nothing is lost, nothing is duplicated *)
+From Coq Require Import Permutation.
+Section Additive.
+Context {A X : Type} (merge : A -> A -> option A) (mu : A -> list X).
+Context (Hmu : forall a b c, merge a b = Some c -> Permutation (mu c) (mu a ++ mu b)).
+
+Lemma tmr_additive gs x gs' : try_merge_rev merge gs x = Some gs' ->
+  Permutation (flat_map mu gs') (flat_map mu gs ++ mu x).
+Proof.
+  revert gs'. induction gs as [|g gs IH]; cbn [try_merge_rev]; intros gs' H; [discriminate|].
+  destruct (try_merge_rev merge gs x) as [r|] eqn:E.
+  - inversion H; subst. cbn [flat_map]. rewrite (IH r eq_refl), app_assoc. reflexivity.
+  - destruct (merge g x) as [m|] eqn:M; inversion H; subst. cbn [flat_map].
+    rewrite (Hmu _ _ _ M). rewrite <- !app_assoc. apply Permutation_app_head. apply Permutation_app_comm.
+Qed.
+Lemma step_additive gs x : Permutation (flat_map mu (step merge gs x)) (flat_map mu gs ++ mu x).
+Proof.
+  unfold step. destruct (try_merge_rev merge gs x) eqn:E; [eapply tmr_additive; eauto|].
+  rewrite flat_map_app. cbn [flat_map]. rewrite app_nil_r. reflexivity.
+Qed.
+Lemma second_pass_additive l : Permutation (flat_map mu (second_pass merge l)) (flat_map mu l).
+Proof.
+  unfold second_pass.
+  assert (G : forall acc, Permutation (flat_map mu (fold_left (step merge) l acc)) (flat_map mu acc ++ flat_map mu l)).
+  { induction l as [|x xs IH]; intros acc; cbn [fold_left flat_map]; [rewrite app_nil_r; reflexivity|].
+    rewrite IH, step_additive, <- app_assoc. reflexivity. }
+  apply (G []).
+Qed.
+Lemma merge_rec_additive fuel : forall l r, merge_rec merge fuel l = Some r -> Permutation (flat_map mu r) (flat_map mu l).
+Proof.
+  induction fuel as [|f IH]; cbn [merge_rec]; intros l r H; [discriminate|].
+  destruct (length (second_pass merge l) <? length l)%nat.
+  - rewrite (IH _ _ H). apply second_pass_additive.
+  - inversion H; subst. apply second_pass_additive.
+Qed.
+Theorem merge_recursive_additive l r : merge_recursive merge l = Ok r -> Permutation (flat_map mu r) (flat_map mu l).
+Proof.
+  unfold merge_recursive. destruct (merge_rec merge (S (length l)) l) eqn:E; intros H; inversion H; subst.
+  eapply merge_rec_additive; eauto.
+Qed.
+End Additive.
